@@ -47,7 +47,7 @@ func (a *refArray) resolve(i int) (int, bool) {
 }
 
 var verifArrIdx = [...]int{0, 1, 2, 5, -1, -2}
-var verifArrOps = [...]string{"a=(x y z)", "a[I]=v", "a+=(w u)", "unset 'a[I]'", "a=([I]=p [J]=q)", "a[I]+=t", "a=()"}
+var verifArrOps = [...]string{"a=(x y z)", "a[I]=v", "a+=(w u)", "unset 'a[I]'", "a=([I]=p [J]=q)", "a[I]+=t", "a=()", "(unset 'a[I]'; a[J]=s; a+=(r))"}
 
 // refApply applies operation op (with subscripts i, j) and returns its text.
 func (a *refArray) apply(op, i, j int) string {
@@ -92,6 +92,8 @@ func (a *refArray) apply(op, i, j int) string {
 		}
 	case 6:
 		a.m = map[int]string{}
+	case 7:
+		// a subshell: nothing it does reaches this shell
 	}
 	t := verifArrOps[op]
 	t = strings.Replace(t, "I", is, 1)
